@@ -89,7 +89,8 @@ def frames(chk, P, file_re, exceptions, floor):
 
 def pairs(chk, P):
     chk.rule("PAIR", "each two-body element applies its action and reaction in one function as a +/- pair: two applications, two different body handles, force "
-             "expressions structurally identical up to exactly one negation, and the station / moment arm used with a body carries that body's suffix")
+             "expressions structurally identical up to exactly one negation, and the station / moment arm used with a body carries that body's suffix; the contact elements "
+             "apply both forces at one and the same point of space (each body's station is found from one common ground point), so that the pair has no net moment")
     for name, form in sorted(PAIR_FUNCS.items()):
         fs = P.fns_named(name)
         chk.require(bool(fs), "anchor vanished: " + name)
@@ -141,6 +142,47 @@ def pairs(chk, P):
                 ok = (digits(x["tgt"]) == digits(x["arm"]) and digits(x["tgt"]) != "") or (ts and ts == as_) or \
                      ({ts, as_} <= {"sphere", "1"} or {ts, as_} <= {"halfspace", "2"}) or (ts == "ground" and x["arm"].endswith("p_G")) or (ts == "b" and as_ == "b")
             chk.judge(ok, "PAIR", "%s:%s:own-station" % (short, x["tgt"]), site, "body %s is given station/arm %s" % (x["tgt"], x["arm"]))
+        if form == "point":
+            same_point(chk, P, f, short, a, b, site)
+
+
+def same_point(chk, P, f, short, a, b, site):
+    """point-form elements: the action and the reaction act at one and the same point of space, expressed in each body --
+    station_k = body_k.findStationAtGroundPoint(state, P) with one P; or (body/Ground element) the Ground point is the body station's ground location"""
+    decls = {d["var"]: d for _, _, d in f.events(lambda d: d["k"] == "decl")}
+    pts = []
+    for x in (a, b):
+        d = decls.get(x["arm"])
+        c = sx_find(d.get("init") or [], lambda y: y[0] == "call" and y[1].endswith("::findStationAtGroundPoint")) if d else []
+        if c:
+            pts.append((sx_str(c[0][2]), sx_str(c[0][3][1]) if len(c[0][3]) > 1 else None))
+        else:
+            pts.append(None)
+    if all(pts):
+        ok = pts[0][1] == pts[1][1] and pts[0][1] is not None and pts[0][0] == a["tgt"] and pts[1][0] == b["tgt"]
+        chk.judge(ok, "PAIR", short + ":one-point-of-application", site,
+                  "stations are %s.findStationAtGroundPoint(%s) and %s.findStationAtGroundPoint(%s): both forces must act at the same ground point, each expressed in its own body"
+                  % (pts[0][0], pts[0][1], pts[1][0], pts[1][1]))
+        return
+    # body / Ground form: one arm is a station member of the element, the other a cached ground point computed from that very station
+    fld = [x for x in (a, b) if x["arm"].endswith("p_G")]
+    stn = [x for x in (a, b) if x not in fld]
+    ok = False
+    det = "arms %s / %s" % (a["arm"], b["arm"])
+    if len(fld) == 1 and len(stn) == 1:
+        fname = fld[0]["arm"].split(".")[-1]
+        writes = []
+        for g in P.all_fns():
+            for _, _, e in g.events(lambda e: e["k"] == "assign" and isinstance(e["lhs"], list) and e["lhs"][0] == "mem" and e["lhs"][2].split("::")[-1] == fname and "Pos" in e["lhs"][2]):
+                writes.append((g, e["rhs"]))
+            for _, _, e in g.calls():   # class-type members are assigned through operator=
+                if e.get("op") == "=" and isinstance(e.get("x"), list) and len(e["x"]) > 3 and isinstance(e["x"][2], list) and e["x"][2][0] == "mem" and \
+                        e["x"][2][2].split("::")[-1] == fname and "Pos" in e["x"][2][2]:
+                    writes.append((g, e["x"][3]))
+        ok = bool(writes) and all(sx_find(e, lambda y: y[0] == "call" and y[1].endswith("::findStationLocationInGround") and sx_str(y[2]) == stn[0]["tgt"] and
+                                          len(y[3]) > 1 and sx_str(y[3][1]) == stn[0]["arm"]) for g, e in writes)
+        det = "%s is written %d time(s), always as %s.findStationLocationInGround(state, %s)" % (fld[0]["arm"], len(writes), stn[0]["tgt"], stn[0]["arm"])
+    chk.judge(ok, "PAIR", short + ":one-point-of-application", site, det)
 
 
 def digit_agreement(chk, P):
@@ -168,6 +210,9 @@ def digit_agreement(chk, P):
 _F = "Simbody/src/Force.cpp"
 _HC = "Simbody/src/HuntCrossleyForce.cpp"
 MUTATIONS = [
+    dict(name="seeded (sub-agent): Hunt-Crossley action and reaction applied at two different stiffness-adjusted points", arm=True, file=_HC,
+         old="        const Vec3 station2 = body2.findStationAtGroundPoint(state, location);", new="        const Vec3 station2 = body2.findStationAtGroundPoint(state, contact.getLocation());",
+         expect="PAIR:HuntCrossleyForceImpl::calcForce:one-point-of-application"),
     dict(name="spring reaction applied with body 1's arm", arm=True, file=_F,
          old="    bodyForces[body1] +=  SpatialVec(s1_G % f1_G, f1_G);\n    bodyForces[body2] -=  SpatialVec(s2_G % f1_G, f1_G);\n}\n\nReal Force::TwoPointLinearSpringImpl",
          new="    bodyForces[body1] +=  SpatialVec(s1_G % f1_G, f1_G);\n    bodyForces[body2] -=  SpatialVec(s1_G % f1_G, f1_G);\n}\n\nReal Force::TwoPointLinearSpringImpl",
